@@ -19,4 +19,3 @@ MANIFEST = {
             "schedules and fault sequences in synctest bubbles.",
     "technique": "Lean 4 proof over a history monitor with history correspondence against kgo x kfake in synctest bubbles",
 }
-PENDING = True  # theorems being proved on branch prop/IDEM; not claimed until merged
